@@ -39,7 +39,10 @@ def _data(value, cfg):
 
 
 def _key(key, cfg):
-    legal, wire = refs.key_legal(key, cfg.get("allow_unicode_keys", False), cfg.get("key_prefix", b""))
+    prefix = cfg.get("key_prefix", b"")
+    if isinstance(prefix, str):
+        prefix = prefix.encode("ascii")        # Client documents: a str prefix is its ASCII encoding
+    legal, wire = refs.key_legal(key, cfg.get("allow_unicode_keys", False), prefix)
     if legal and wire == b"":
         return False, None
     return legal, wire
